@@ -28,9 +28,13 @@ func baselineFuncs() map[string]bool {
 // through static calls from their own package: their behaviour is fully accounted for at their (inlined) call sites.
 func newHelpers(P *Program, baseline map[string]bool) map[*FuncInfo]bool {
 	out := map[*FuncInfo]bool{}
+	rec := NewAnalysis(P)
 	for _, fi := range P.Funcs {
 		if baseline[fi.Name] {
 			continue
+		}
+		if rec.isRecursive(fi.SSA) {
+			continue // never walked through: it has to satisfy the rules as a function of its own
 		}
 		if ast.IsExported(fi.Obj.Name()) {
 			// an exported method of an unexported type is still internal
@@ -105,6 +109,7 @@ func upgradeByInlining(c *Ctx, spec *propSpec) {
 		held    map[string]*Obligation
 		counts  map[string]int
 		skipped map[string]bool
+		obs     []*Obligation
 	}
 	var views []view
 	for mode := 1; mode <= 2; mode++ {
@@ -127,7 +132,7 @@ func upgradeByInlining(c *Ctx, spec *propSpec) {
 			spec.run(c2)
 		}()
 		c.P.Skip = saved
-		v := view{held: map[string]*Obligation{}, counts: map[string]int{}, skipped: map[string]bool{}}
+		v := view{held: map[string]*Obligation{}, counts: map[string]int{}, skipped: map[string]bool{}, obs: R2.Obs}
 		// a view in which some function of a rule could not be summarised (or the checker failed) proves nothing for that rule
 		tainted := map[string]bool{}
 		allTainted := false
@@ -162,6 +167,11 @@ func upgradeByInlining(c *Ctx, spec *propSpec) {
 	}
 	var kept []*Obligation
 	upgraded := 0
+	usedForHelper := map[int]bool{}
+	plainKeys := map[string]bool{}
+	for _, o := range c.R.Obs {
+		plainKeys[o.Key()] = true
+	}
 	for _, o := range c.R.Obs {
 		if o.Verdict == Held {
 			kept = append(kept, o)
@@ -178,7 +188,9 @@ func upgradeByInlining(c *Ctx, spec *propSpec) {
 				break
 			}
 			if v.skipped[o.Construct] {
-				// a new helper fully accounted for at its call sites
+				// a new helper accounted for at its call sites: whatever the view with the helper inlined reports
+				// there, and the plain view has no obligation for, is imported below
+				usedForHelper[i] = true
 				upgraded++
 				done = true
 				o = nil
@@ -189,6 +201,19 @@ func upgradeByInlining(c *Ctx, spec *propSpec) {
 			kept = append(kept, o)
 		}
 		_ = done
+	}
+	for i, v := range views {
+		if !usedForHelper[i] {
+			continue
+		}
+		for _, o := range v.obs {
+			if o.Verdict == Held || plainKeys[o.Key()] || v.skipped[o.Construct] {
+				continue
+			}
+			o.Msg += fmt.Sprintf(" [seen with the new helper(s) inlined, view %d]", i+1)
+			plainKeys[o.Key()] = true
+			kept = append(kept, o)
+		}
 	}
 	c.R.Obs = kept
 	// instance floors: the best count over the views
